@@ -38,11 +38,12 @@ def save_meta(d, m):
     json.dump(m, open(os.path.join(d, "meta.json"), "w"), indent=1)
 
 
-def confirm(prop, k):
-    src = "/tmp/mut/out/%s" % prop
+def confirm(prop, k, src=None, src_k=None):
+    src = src or "/tmp/mut/out/%s" % prop
+    src_k = src_k or k
     d = seed_dir(prop, k)
     os.makedirs(d, exist_ok=True)
-    for a, b in (("patch%s.diff" % k, "patch.diff"), ("demo%s.py" % k, "demo.py"), ("notes%s.md" % k, "notes.md")):
+    for a, b in (("patch%s.diff" % src_k, "patch.diff"), ("demo%s.py" % src_k, "demo.py"), ("notes%s.md" % src_k, "notes.md")):
         if os.path.exists(os.path.join(src, a)):
             shutil.copy(os.path.join(src, a), os.path.join(d, b))
     wt = "/tmp/seedv/%s-%s" % (prop, k)
@@ -106,8 +107,8 @@ def detect(prop, k, tier="quick", check_prop=None):
 
 if __name__ == "__main__":
     a = sys.argv[1:]
-    if a[0] == "confirm":
-        confirm(a[1], a[2])
+    if a[0] == "confirm":      # confirm C07 3 [--src /tmp/mut2/out/C07 --from 1]
+        confirm(a[1], a[2], a[a.index("--src") + 1] if "--src" in a else None, a[a.index("--from") + 1] if "--from" in a else None)
     elif a[0] == "detect":
         tier = a[a.index("--tier") + 1] if "--tier" in a else "quick"
         cp = a[a.index("--prop") + 1] if "--prop" in a else None
